@@ -64,7 +64,7 @@ func (s *sdbSess) afterCommit(root []byte) {
 	for k, v := range s.ref {
 		m[k] = v
 	}
-	s.commits = append(s.commits, commitRec{append([]byte{}, root...), m})
+	s.commits = append(s.commits, commitRec{cpRoot(root), m})
 	s.head = len(s.commits) - 1
 	s.wset(root)
 	s.op("commit", fmt.Sprintf("ok %d", len(s.commits)-1), false)
@@ -165,7 +165,7 @@ func (s *sdbSess) accountBlock(puts []aput, twice, abandon bool) {
 		s.fail("StateDB.Commit: " + err.Error())
 		return
 	}
-	root := append([]byte{}, bs.GetRoot()...)
+	root := cpRoot(bs.GetRoot())
 	if err := s.long.SetRoot(root); err != nil {
 		s.fail("SetRoot: " + err.Error())
 	}
@@ -352,7 +352,7 @@ func (s *sdbSess) storageBlock(puts []sput, twice bool) {
 	if err := s.long.SetRoot(bs.GetRoot()); err != nil {
 		s.fail("SetRoot: " + err.Error())
 	}
-	s.acctRoot = append(s.acctRoot, append([]byte{}, bs.GetRoot()...))
+	s.acctRoot = append(s.acctRoot, cpRoot(bs.GetRoot()))
 	d := map[string][]byte{}
 	for k, v := range s.data {
 		d[k] = v
